@@ -34,6 +34,7 @@ sat = z3.Function('sat', F, hp.SetH)     # satisfaction set in THE structure of 
 or_w = z3.Function('or_witness', F, H, F)
 ex_w = z3.Function('ex_witness', F, H, H)
 eg_w = z3.Function('eg_witness', F, H, H)
+FML = z3.Function('formula_object_of', H, F)      # the formula object a parser's transformer returned (a value) - C09/C10
 nonfair = z3.Function('non_fair_formula', F, H, F)    # result of get_equivalent_non_fair_formula(label)
 
 
@@ -192,6 +193,8 @@ class FormulaExt(Extension):
     def isinstance(self, E, ex, a, cls, path, node):
         if ex.k.hints.get('ext') == 'sem':
             return None
+        if a.ty == 'text' and cls.ty == 'func' and cls.x[0] == 'builtin' and cls.x[1] == 'str':
+            return SV('bool', z3.BoolVal(True))
         if a.ty == 'F':
             if cls.ty == 'func' and cls.x[0] == 'fctor':
                 cls = SV('fclass', None, cls.x[1])
@@ -253,4 +256,16 @@ class FormulaExt(Extension):
         return None
 
     def param_value(self, E, ex, name, ty, heap, pc):
+        if ty == 'text':
+            return SV('text', hp.fresh(name, H))
+        return None
+
+    def call_value(self, E, ex, fn, args, kwargs, path, node):
+        if ex.k.hints.get('ext') == 'sem':
+            return None
+        if fn.ty == 'type' and fn.x == 'Parser' and not args:
+            return SV('parserobj')
+        if fn.ty == 'parserobj' and len(args) == 1 and args[0].ty == 'text':
+            r = E.call_contract(ex, 'Parser.__call__', [fn, SV('H', args[0].t)], kwargs, path, node)
+            return SV('F', FML(r.t))
         return None
